@@ -13,7 +13,10 @@ LEAVES = ["u32", "string", "ref_u32", "ref_str", "ref_bytes", "static_str"]
 OWNED = {"u32", "string", "static_str"}
 
 
-def ty_rust(t):
+def ty_rust(t, lt=""):
+    """`lt` = "'s " renders every reference borrowed from self with the named receiver lifetime."""
+    if lt:
+        return ty_rust(t).replace("&u32", f"&{lt}u32").replace("&str", f"&{lt}str").replace("&[u8]", f"&{lt}[u8]")
     k = t[0]
     if k == "u32":
         return "u32"
@@ -83,6 +86,15 @@ class Counter:
         return self.n
 
 
+def can_own(t):
+    """Does the type have a borrow-free part (an owned leaf can occur in some value)"""
+    if not has_ref(t):
+        return True
+    if t[0] in LEAVES:
+        return False
+    return any(can_own(x) for x in t[1:])
+
+
 def gen_value(t, rng, c: Counter, force=None):
     """Python value tree: leaf -> int/str/list; opt -> None | ("Some", v); res -> ("Ok", v)|("Err", v); ..."""
     k = t[0]
@@ -94,22 +106,27 @@ def gen_value(t, rng, c: Counter, force=None):
         n = c.next()
         return [n % 250, (n + 1) % 250]
     if k == "opt":
-        if (force == "first") or (force is None and rng.random() < 0.7):
-            return ("Some", gen_value(t[1], rng, c))
+        if force in ("first", "owned") or (force is None and rng.random() < 0.7):
+            return ("Some", gen_value(t[1], rng, c, force if force == "owned" else None))
         return None
     if k == "res":
+        if force == "owned":
+            # steer towards the variant that can hold an owned leaf
+            if can_own(t[1]) and not (can_own(t[2]) and rng.random() < 0.5):
+                return ("Ok", gen_value(t[1], rng, c, force))
+            return ("Err", gen_value(t[2], rng, c, force))
         if (force == "first") or (force is None and rng.random() < 0.5):
             return ("Ok", gen_value(t[1], rng, c))
         return ("Err", gen_value(t[2], rng, c))
     if k == "vec":
-        n = rng.choice([0, 1, 2, 3, 4]) if force is None else (2 if force == "first" else 0)
-        return ["vec"] + [gen_value(t[1], rng, c) for _ in range(n)]
+        n = rng.choice([0, 1, 2, 3, 4]) if force is None else (2 if force in ("first", "owned") else 0)
+        return ["vec"] + [gen_value(t[1], rng, c, force if force == "owned" else None) for _ in range(n)]
     if k == "poll":
-        if (force == "first") or (force is None and rng.random() < 0.7):
-            return ("Ready", gen_value(t[1], rng, c))
+        if force in ("first", "owned") or (force is None and rng.random() < 0.7):
+            return ("Ready", gen_value(t[1], rng, c, force if force == "owned" else None))
         return ("Pending",)
     if k == "tup":
-        return ("tup",) + tuple(gen_value(x, rng, c) for x in t[1:])
+        return ("tup",) + tuple(gen_value(x, rng, c, force if force == "owned" else None) for x in t[1:])
     raise ValueError(t)
 
 
@@ -163,8 +180,11 @@ def val_debug(t, v):
 
 
 def owned_leaves(t, v):
-    """Number of owned leaves present in this value (static refs are Copy data, not owned leaves)."""
+    """Number of owned leaves present in this value. An owned leaf is a maximal sub-value whose type contains no
+    borrow from self: it is stored (and handed out) as one owned value, whatever variant it holds."""
     k = t[0]
+    if not has_ref(t):
+        return 1
     if k in OWNED:
         return 1
     if k in LEAVES:
@@ -277,8 +297,10 @@ def to_tuple(t):
 MODES = ["some", "each", "once", "n2"]
 
 
-def render(t, v, mode, idx):
+def render(t, v, mode, idx, named_lifetime=False):
     rt = ty_rust(t)
+    if named_lifetime:
+        return render_named(t, v, mode, idx)
     cfg = val_cfg(t, v)
     ac = addr_code(t, "v")
     clause = {
@@ -321,6 +343,18 @@ pub fn run() {{
     n_owned = owned_leaves(t, v) if has_ref(t) else 1
     exp = {"idx": idx, "type": rt, "value": val_debug(t, v), "mode": mode, "calls": n_calls,
            "owned_leaves": n_owned, "single_use_path": single_use_path}
+    return text, exp
+
+
+def render_named(t, v, mode, idx):
+    """The same case with `fn m<'s>(&'s self) -> ..&'s T..`: borrows tied to self only through a named lifetime."""
+    text, exp = render(t, v, mode, idx)
+    rt = ty_rust(t)
+    rt_named = ty_rust(t, "'s ")
+    text = text.replace(f"    fn m(&self) -> {rt};", f"    fn m<'s>(&'s self) -> {rt_named};")
+    exp = dict(exp)
+    exp["type"] = rt_named
+    exp["named_lifetime"] = True
     return text, exp
 
 
